@@ -413,12 +413,17 @@ def boundary_subset(cases):
 def run(res, tier, seed):
     quick = tier == "quick"
     wd = vlib.workdir("c18-%d" % os.getpid())
+    import time
+    t0 = time.time()
     cases, klass = build_cases(tier, seed, wd, res)
+    vlib.log("c18: MC+GEN %.0fs, %d cases %s" % (time.time() - t0, len(cases), klass))
     res.notes["cases_per_class"] = klass
     known = {k["key"]: k for k in vlib.known_findings(PROP)}
     # ---- RUN (plain build, all cases)
     exe = vlib.build_harness("c18")
+    t1 = time.time()
     events, problems = run_harness(exe, cases, wd, "hooks", 8)
+    vlib.log("c18: RUN(hooks) %.0fs" % (time.time() - t1))
     if problems:
         rc, err, got, n, cp = problems[0]
         if rc == 2:
@@ -440,6 +445,7 @@ def run(res, tier, seed):
             raise vlib.Infra("harness usage error (asan): " + err)
         res.violation("harness (asan) terminated abnormally (rc=%s, %d of %d events): %s" % (rc, got, n, err[-300:]), aevents[-5:])
         return
+    vlib.log("c18: RUN(asan) %d cases, total %.0fs" % (len(sub), time.time() - t0))
     reports = {}
     for p in glob.glob(os.path.join(logdir, "*")):
         m = re.search(r"\.(\d+)$", p)
@@ -457,6 +463,7 @@ def run(res, tier, seed):
         flat.append({k: v for k, v in ev.items() if k not in ("san", "pid")})
     rejects, st = vlib.tlc_validate_sharded(TRACE, flat, tag="c18tv", timeout=3000)
     res.notes["tv_states"] = st["tv_states"]
+    vlib.log("c18: TV done, total %.0fs, %d rejects" % (time.time() - t0, len(rejects)))
     bad = 0
     for rj in sorted(rejects, key=lambda r: r["line"]):
         ev = allev[rj["line"] // 2]
